@@ -7,6 +7,7 @@
 """
 Generate type stubs for configurations.
 """
+import ast
 import inspect
 from typing import Any, Dict, Optional, Type, Union, get_origin
 
@@ -48,6 +49,13 @@ def get_annotation_typestr(field: Union[BaseField, Type, str]) -> str:
             retval = storage_type.__name__
     else:
         retval = str(storage_type)
+
+    if retval:
+        try:
+            ast.parse(retval, mode="eval")
+        except SyntaxError:
+            # e.g. a class defined inside a function nested in a typing generic renders as "...<locals>.Name"
+            retval = "typing.Any"
 
     return retval or "typing.Any"
 
